@@ -221,6 +221,14 @@ Definition builtin_call (f : string) (args : list V) : res V :=
     | [VB b] => Ok (VB b)
     | [] => Ok (VB [])
     | [VI n] => if n <? 0 then Raise ValueError else Ok (VB (repeat_list (Z.to_nat n) [0]))
+    | [VL l] | [VT l] =>
+      (fix go (xs : list V) : res V :=
+         match xs with
+         | [] => Ok (VB [])
+         | VI x :: r => if (x <? 0) || (255 <? x) then Raise ValueError
+                        else match go r with Ok (VB t) => Ok (VB (x :: t)) | Ok _ => Raise TypeError | Raise e => Raise e end
+         | _ => Raise TypeError
+         end) l
     | _ => Raise TypeError
     end
   else if String.eqb f "int.from_bytes" || String.eqb f "int.from_bytes/byteorder" then
@@ -253,8 +261,8 @@ Definition builtin_call (f : string) (args : list V) : res V :=
     match args with
     | [VB b; VI i; VI v] =>
       let n := len b in let j := if i <? 0 then n + i else i in
-      if (j <? 0) || (n <=? j) then Raise IndexError
-      else if (v <? 0) || (255 <? v) then Raise ValueError
+      if (v <? 0) || (255 <? v) then Raise ValueError            (* CPython converts the value before it looks at the index *)
+      else if (j <? 0) || (n <=? j) then Raise IndexError
       else Ok (VB (slice None (Some j) b ++ [v] ++ slice (Some (j + 1)) None b))
     | [VL l; VI i; v] =>
       let n := len l in let j := if i <? 0 then n + i else i in
@@ -291,6 +299,7 @@ Definition builtin_call (f : string) (args : list V) : res V :=
 Definition to_bytes_generic (z : Z) (n : Z) (little signed : bool) : res bytes :=
   if n <? 0 then Raise ValueError else
   let w := Z.to_nat n in
+  if signed && (n =? 0) && (z =? -1) then Ok [] else     (* CPython: (-1).to_bytes(0, .., signed=True) == b"" *)
   if signed then
     (if little then to_bytes_le_signed w z
      else let* b := to_bytes_le_signed w z in Ok (rev b))
